@@ -9,7 +9,7 @@ script) is the run in which the OS never splits a transfer.  `noHard os.sc` = th
 counts and `EINTR`s.  Statement form: `run loop script = run loop OS.full` on everything the caller can
 observe, plus "success ⇒ the whole transfer happened" for *arbitrary* scripts (hard errors included).
 -/
-import Sqfs.Proofs.IoStream
+import Sqfs.Proofs.IoIdeal
 namespace Sqfs.C12
 open Sqfs.IoLoops Sqfs.IoLoops.Spec
 
@@ -174,42 +174,62 @@ theorem client_history_script_independent (B : Nat) (hB : 0 < B) (data : Bytes) 
   obtain ⟨b1, b2, b3⟩ := istream_bytes B hB data ops o ln OS.full (by simp [noHard, OS.full])
   exact ⟨a1.trans b1.symm, a2.trans b2.symm, a3.trans b3.symm⟩
 
-/-- **`read_skip_splice_spec`** (script independence, from any reachable stream state): `sqfs_istream_read`,
-`sqfs_istream_skip` and `sqfs_istream_splice` return the same status/bytes/count and leave the same output as
-over the ideal window stream. -/
+/-- **`read_skip_splice_spec`.** From any stream state `s` that represents position `t.pos` of the file
+(`Rel`, `Iv`: every state a client can reach), for every script of short counts and `EINTR`s, every buffer size:
+`sqfs_istream_read` returns exactly the next `min size 0x7FFFFFFF` bytes of the file (fewer only at its end),
+`sqfs_istream_skip` succeeds, and `sqfs_istream_splice` reports the count of bytes that were left and has
+appended exactly those bytes to the output stream. -/
 theorem read_skip_splice_spec (B : Nat) (hB : 0 < B) (data : Bytes) (s : IStream) (t : Ideal) (hr : Rel B data s t)
-    (o : OStream) (size : Nat) (os : OS) (h : noHard os.sc = true) :
-    (istreamRead (fileStream B) s size os).1 = (istreamRead (idealStream B data) t size OS.full).1 ∧
-    (istreamSkip (fileStream B) s size os).1 = (istreamSkip (idealStream B data) t size OS.full).1 ∧
-    (istreamSplice (fileStream B) s o size os).1 = (istreamSplice (idealStream B data) t o size OS.full).1 ∧
-    (istreamSplice (fileStream B) s o size os).2.2.1 = (istreamSplice (idealStream B data) t o size OS.full).2.2.1 := by
+    (hi : Iv data t) (o : OStream) (ho : o.sparse = 0) (size : Nat) (os : OS) (h : noHard os.sc = true) :
+    (istreamRead (fileStream B) s size os).1 = .n (slice data t.pos (min size 0x7FFFFFFF)) ∧
+    (istreamSkip (fileStream B) s size os).1 = .ok ∧
+    (istreamSplice (fileStream B) s o size os).1 = (.ok, min (min size 0x7FFFFFFF) (data.length - t.pos)) ∧
+    (istreamSplice (fileStream B) s o size os).2.2.1.out = o.out ++ slice data t.pos (min size 0x7FFFFFFF) := by
   have hf : noHard OS.full.sc = true := by simp [noHard, OS.full]
+  have hsz : (if size > 0x7FFFFFFF then 0x7FFFFFFF else size) = min size 0x7FFFFFFF := by
+    split <;> omega
   obtain ⟨_, _, h1, _⟩ := istreamReadLoop_sim (file_sim B hB data)
-    ((if size > 0x7FFFFFFF then 0x7FFFFFFF else size) + 1) s t (if size > 0x7FFFFFFF then 0x7FFFFFFF else size) [] os OS.full hr h hf
+    (min size 0x7FFFFFFF + 1) s t (min size 0x7FFFFFFF) [] os OS.full hr h hf
+  obtain ⟨_, c1, _, _⟩ := idealRead_closed B hB data (min size 0x7FFFFFFF + 1) t (min size 0x7FFFFFFF) [] OS.full hi
+    (Nat.lt_succ_self _)
   obtain ⟨_, _, h2, _⟩ := istreamSkipLoop_sim (file_sim B hB data) (size + 1) s t size os OS.full hr h hf
+  obtain ⟨_, c2, _, _⟩ := idealSkip_closed B hB data (size + 1) t size OS.full hi (Nat.lt_succ_self _)
   obtain ⟨_, _, h3, _⟩ := istreamSpliceLoop_sim (file_sim B hB data)
-    ((if size > 0x7FFFFFFF then 0x7FFFFFFF else size) + 1) s t o (if size > 0x7FFFFFFF then 0x7FFFFFFF else size) 0 os OS.full hr h hf
-  simp only [istreamRead, istreamSkip, istreamSplice, h1, h2, h3, and_self]
+    (min size 0x7FFFFFFF + 1) s t o (min size 0x7FFFFFFF) 0 os OS.full hr h hf
+  obtain ⟨_, o', _, c3, co, _⟩ := idealSplice_closed B hB data (min size 0x7FFFFFFF + 1) t o (min size 0x7FFFFFFF) 0 OS.full hi
+    (Nat.lt_succ_self _) ho hf
+  simp only [istreamRead, istreamSkip, istreamSplice, hsz, h1, c1, h2, c2, h3, c3, List.nil_append, Nat.zero_add, co,
+    and_self]
 
-/-- **`get_line_chunking_independent`**: from any reachable stream state, with any pending partial line `acc` and
-any flags, `istream_get_line` returns the same line (or end-of-file) and the same line counter for every OS
-chunking of the input as over the ideal window stream. -/
+/-- **`get_line_chunking_independent`.** From any reachable stream state, with any pending partial line `acc` and
+any flags, for every script of short counts and `EINTR`s and **every buffer size**: `istream_get_line` returns
+the line that the byte-at-a-time scanner `Spec.nextLineAux` finds in the bytes that are left (split at '\n',
+one '\r' dropped, trimmed per the flags, empty lines counted and skipped with `SKIP_EMPTY`, an unterminated last
+line returned, then end-of-file) and the same line counter.  Neither `B` nor the script occurs on the right-hand
+side: the lines are the same for every chunking. -/
 theorem get_line_chunking_independent (B : Nat) (hB : 0 < B) (data : Bytes) (s : IStream) (t : Ideal)
-    (hr : Rel B data s t) (flags fuel : Nat) (acc : Bytes) (ln : Nat) (os : OS) (h : noHard os.sc = true) :
-    (getLineLoop (fileStream B) flags fuel s acc ln os).1 =
-      (getLineLoop (idealStream B data) flags fuel t acc ln OS.full).1 ∧
-    (getLineLoop (fileStream B) flags fuel s acc ln os).2.2.1 =
-      (getLineLoop (idealStream B data) flags fuel t acc ln OS.full).2.2.1 := by
-  obtain ⟨_, _, h1, _⟩ := getLineLoop_sim (file_sim B hB data) flags fuel s t acc ln os OS.full hr h
+    (hr : Rel B data s t) (hi : Iv data t) (flags : Nat) (acc : Bytes) (ln : Nat) (os : OS) (h : noHard os.sc = true) :
+    (getLineLoop (fileStream B) flags ((fileStream B).bound s + 2) s acc ln os).1 =
+      lineRetOf (nextLineAux flags acc (data.drop t.pos) ln).1 ∧
+    (getLineLoop (fileStream B) flags ((fileStream B).bound s + 2) s acc ln os).2.2.1 =
+      (nextLineAux flags acc (data.drop t.pos) ln).2.2 := by
+  have hb := (file_sim B hB data).bound s t hr
+  obtain ⟨_, _, h1, _⟩ := getLineLoop_sim (file_sim B hB data) flags ((fileStream B).bound s + 2) s t acc ln os OS.full hr h
     (by simp [noHard, OS.full])
-  simp only [h1, and_self]
+  obtain ⟨_, c1, _, _⟩ := idealGetLine_closed B hB data flags ((fileStream B).bound s + 2) t acc ln OS.full hi
+    (by rw [hb]; simp [idealStream])
+  simp only [h1, c1, and_self]
 
-/-- **`record_to_memory_spec`** (script independence): same record (or NULL) for every OS chunking. -/
+/-- **`record_to_memory_spec`.** For every script of short counts and `EINTR`s and every buffer size,
+`record_to_memory(size)` returns exactly the next `size` bytes of the file, or NULL when fewer are left
+(or `size` exceeds what `sqfs_istream_read` transfers in one call). -/
 theorem record_to_memory_spec (B : Nat) (hB : 0 < B) (data : Bytes) (s : IStream) (t : Ideal) (hr : Rel B data s t)
-    (size : Nat) (os : OS) (h : noHard os.sc = true) :
-    (recordToMemory (fileStream B) s size os).1 = (recordToMemory (idealStream B data) t size OS.full).1 := by
+    (hi : Iv data t) (size : Nat) (os : OS) (h : noHard os.sc = true) :
+    (recordToMemory (fileStream B) s size os).1 =
+      (if t.pos + size ≤ data.length ∧ size ≤ 0x7FFFFFFF then some (slice data t.pos size) else none) := by
   obtain ⟨_, _, h1, _⟩ := recordToMemory_sim (file_sim B hB data) s t size os OS.full hr h (by simp [noHard, OS.full])
-  simp only [h1]
+  obtain ⟨c1, _⟩ := idealRecord_closed B hB data t size OS.full hi
+  simp only [h1, c1]
 
 /-! ### non-vacuity: concrete scripts with short counts, `EINTR` bursts and hard errors -/
 
@@ -235,6 +255,9 @@ example : (runOps (fileStream 4) ⟨IStream.init [97,98,10,99,100,13,10,10,101],
     [.get .ok [97,98,10,99], .adv, .get .ok [98,10,99], .read (.n [98,10]), .line (.line [99,100]) 0,
      .line (.line [101]) 1, .line .eof 1] := by decide
 -- the initial state is related to the ideal stream, so the `Rel` hypotheses above are satisfiable
-example : Rel 4 [1,2,3] (IStream.init [1,2,3]) ⟨0, 0⟩ := rel_init 4 [1,2,3]
+example : Rel 4 [1,2,3] (IStream.init [1,2,3]) ⟨0, 0⟩ ∧ Iv [1,2,3] ⟨0, 0⟩ := ⟨rel_init 4 [1,2,3], by simp [Iv]⟩
+-- the scanner on " ab \r\n\n x" with LTRIM|RTRIM|SKIP_EMPTY: "ab", then "x" (one empty line counted), then end
+example : nextLine 7 [32,97,98,32,13,10,10,32,120] 0 = (some [97,98], [10,32,120], 0) ∧
+    nextLine 7 [10,32,120] 0 = (some [120], [], 1) ∧ nextLine 7 [] 1 = (none, [], 1) := by decide
 
 end Sqfs.C12
